@@ -97,7 +97,7 @@ PROPS = {
 }
 
 NOT_APPLICABLE = {}
-HOOK_COMMITS = []
+HOOK_COMMITS = ['6892cbf4753434ae03c9f54a2d1a2dc6d5dfb558']
 
 
 def engine_index():
